@@ -107,7 +107,34 @@ fn lib_case(shape: &[usize], rot: usize, p: usize, fmt: &str) -> J {
 }
 
 fn check_lib(shape: &[usize], rot: usize, p: usize, scratch: &Scratch) -> Vec<Viol> {
-    let x = special_array(shape, rot);
+    // rot >= 1000 selects the large-magnitude alphabet (many significant digits beyond 2^53)
+    let x = if rot >= 1000 { large_array(shape, rot - 1000) } else { special_array(shape, rot) };
+    check_lib_x(&x, shape, rot, p, scratch)
+}
+
+/// Values whose magnitude exceeds 2^53 (where not every integer is representable) but which carry
+/// 16-17 significant digits, and huge / tiny magnitudes with full mantissas.
+const LARGE: [f64; 12] = [
+    9007199254740994.0,
+    12345678901234567168.0,
+    -98765432109876543488.0,
+    1.8446744073709552e19,
+    4611686018427387904.0,
+    123456789012345678e40,
+    -7.654321098765432e-5,
+    2.2250738585072014e-308,
+    1.2345678901234567e300,
+    16777217.0,
+    4294967297.0,
+    0.30000000000000004,
+];
+
+fn large_array(shape: &[usize], rot: usize) -> RefArray {
+    RefArray::from_fn(shape, |f, _| LARGE[(f + rot) % LARGE.len()])
+}
+
+fn check_lib_x(x: &RefArray, shape: &[usize], rot: usize, p: usize, scratch: &Scratch) -> Vec<Viol> {
+    let x = x.clone();
     let mut viols = Vec::new();
     // npy: bit-identical incl. NaN payloads, both through Array::read_npy and the auto-detecting reader
     match write_real(&x, Format::Npy, p) {
@@ -509,6 +536,25 @@ pub fn run(tier: Tier) -> i32 {
         evaluations: 2 * jobs.len() as u64,
         nontrivial: 2 * jobs.len() as u64,
         note: format!("{} shapes x precision 0..17 x {{text,npy}}, special-value alphabet", shp.len()),
+        exhaustive: true,
+        extra: vec![],
+    });
+    // large magnitudes with full mantissas at every precision
+    let mut lj = Vec::new();
+    for r in 0..LARGE.len() {
+        for p in 0..=17usize {
+            lj.push((r, p));
+        }
+    }
+    let res = par_map(lj.len(), |i| check_lib(&[1], 1000 + lj[i].0, lj[i].1, &scratch).into_iter().chain(check_lib(&[2, 3], 1000 + lj[i].0, lj[i].1, &scratch)).collect::<Vec<_>>());
+    for v in res.into_iter().flatten() {
+        rep.violation(v.0, v.1, v.2);
+    }
+    rep.part(Part {
+        name: "lib: magnitudes beyond 2^53 with 16-17 significant digits".into(),
+        evaluations: 4 * lj.len() as u64,
+        nontrivial: 4 * lj.len() as u64,
+        note: format!("{} values (2^53+2, ~1.2e19, 2^64, 1.2e58, 1.2e300, the smallest normal, 2^24+1, 2^32+1, ...) x precision 0..17 x {{text, npy}} as 1-cell and 2x3 spectra", LARGE.len()),
         exhaustive: true,
         extra: vec![],
     });
